@@ -72,8 +72,14 @@ def strategy(shard):
             for _ in range(draw(st.integers(0, 12))):
                 c = draw(st.sampled_from(contests))
                 bid = draw(st.sampled_from(["99813_1_1", "99813_1_3", "99813_1_6", "5"]))
-                rows.append([c["id"], bid, draw(si.pref_list(c["cands"]))])
-            return {"mode": "readers", "contests": contests, "rows": rows}
+                r = draw(si.pref_list(c["cands"]))
+                if len(r) >= 1 and draw(st.integers(0, 5)) == 0:
+                    # a voter may rank the same candidate again further down: the later mention means nothing
+                    j = draw(st.integers(0, len(r) - 1))
+                    r = r[: j + 1] + [draw(st.sampled_from(r[: j + 1]))] + r[j + 1:]
+                rows.append([c["id"], bid, r])
+            return {"mode": "readers", "contests": contests, "rows": rows,
+                    "final_newline": draw(st.sampled_from([True, True, False]))}
 
         return readers()
     return si.profile(n_min=shard.get("n_min", 3), n_max=shard.get("n_max", 5), max_ballots=40).map(lambda p: dict(p, mode="tally"))
@@ -122,6 +128,20 @@ def _compare(out, cands, w, l, E_sets, rankings):
                 if want != 0.5:
                     inter = True
                 if not out.expect(got == want, "assorter!=generator-verdict", lambda: {"assertion": k, "ranking": list(r), "dict-key-order": list(votes), "audit": got, "generator": want}):
+                    return n, inter
+        if len(r) >= 2:
+            # the ballot also ranks an identifier that is not a candidate (a write-in) after its first choice: both readers
+            # keep positions in the full list, so the ranks have a gap; the verdicts are those of the ballot without it
+            gap_a = {c: (i + 1 if i == 0 else i + 2) for i, c in enumerate(r)}
+            gap_g = {"K": {c: (i if i == 0 else i + 1) for i, c in enumerate(r)}}
+            cvg = CVR(id="x", votes={"K": gap_a})
+            for k, a in zip(keys, gen):
+                dense = (a.is_vote_for_winner(rc) - a.is_vote_for_loser(rc) + 1) / 2
+                want = (a.is_vote_for_winner(gap_g) - a.is_vote_for_loser(gap_g) + 1) / 2
+                got = asn[k].assorter.assort(cvg)
+                n += 1
+                if not out.expect(got == want == dense, "ranks-with-a-gap:assorter/generator/dense-ballot-disagree",
+                                  lambda: {"assertion": k, "ranking": list(r), "audit": got, "generator": want, "without-the-write-in": dense}):
                     return n, inter
         for k, a in zip(keys, gen):
             w0 = (a.is_vote_for_winner(rc), a.is_vote_for_loser(rc))
@@ -175,6 +195,11 @@ def evaluate(case, out):
             p = os.path.join(d, "x.raire")
             with open(p, "w", newline="") as fh:
                 csv.writer(fh, lineterminator="\n").writerows(lines)
+            if not case.get("final_newline", True):
+                txt = open(p).read()
+                with open(p, "w", newline="") as fh:
+                    fh.write(txt.rstrip("\n"))   # the last line of a file need not end in a newline
+                out.cls("file-without-final-newline")
             try:
                 cv, _, _ = CVR.from_raire_file(p)
                 contests, rc = load_contests_from_raire(p)
@@ -187,7 +212,9 @@ def evaluate(case, out):
         B = {(bid, k): [x for x, _ in sorted(v.items(), key=lambda kv: kv[1])] for bid, vs in rc.items() for k, v in vs.items()}
         want = {}
         for cid, bid, r in case["rows"]:
-            want[(bid, cid)] = list(r)
+            want[(bid, cid)] = list(dict.fromkeys(r))   # order of first mention
+            if len(set(r)) < len(r):
+                out.cls("candidate-ranked-twice")
         out.expect(A == B, "readers-disagree", lambda: {"audit": A, "generator": B})
         out.expect(A == want, "audit-reader!=file", lambda: {"audit": A, "file": want})
         out.expect({c.name for c in contests} == {c["id"] for c in case["contests"]}, "contest-ids", lambda: [c.name for c in contests])
